@@ -721,6 +721,16 @@ def _cell_truth(op, lv, rv, cell):
     return {'Gt': a > b, 'GtE': a >= b, 'Lt': a < b, 'LtE': a <= b}.get(op)
 
 
+# what each documented state name says about the sign class (processing, blocked) - read off the names, confirmed against the class docstring
+MEANING = {
+    'IDLE_STATE': lambda c: c == (0, 0),
+    'ATLEAST_ONE_PROCESSING_STATE': lambda c: c[0] == 1,
+    'ALL_ACTIVE_PROCESSING_STATE': lambda c: c[0] == 1 and c[1] == 0,
+    'ATLEAST_ONE_BLOCKED_STATE': lambda c: c[1] == 1,
+    'ALL_ACTIVE_BLOCKED_STATE': lambda c: c[1] == 1 and c[0] == 0,
+}
+
+
 def check_machine_groups(p, r):
     """Path rule on Machine.update_state_rep: for each sign class of the previous (processing, blocked) pair, every path consistent with it
     credits exactly one member of each documented state group, and with exactly the elapsed time (now − old stamp)."""
@@ -777,6 +787,13 @@ def check_machine_groups(p, r):
             for credited, pa in per_cell[cell]:
                 hits = [m for m in members if m in credited]
                 n_hits = sum(credited.count(m) for m in members)
+                if n_hits == 1 and hits[0] in MEANING and not MEANING[hits[0]](cell):
+                    sign = f'processing{"=0" if cell[0] == 0 else ">0"}, blocked{"=0" if cell[1] == 0 else ">0"}'
+                    want = [m for m in members if m in MEANING and MEANING[m](cell)]
+                    why = (f'for ({sign}) the time is credited to {hits[0]}, whose name says otherwise; the member of {members} that describes this '
+                           f'situation is {want[0] if want else "?"}: the totals still add up to the elapsed time but do not reflect what the machine was doing')
+                    bad = pa
+                    break
                 if n_hits != 1:
                     sign = f'processing{"=0" if cell[0] == 0 else ">0"}, blocked{"=0" if cell[1] == 0 else ">0"}'
                     why = (f'for ({sign}) the states {hits or "∅"} of {members} are credited{" more than once" if n_hits > len(hits) else ""}: the group is not a '
